@@ -131,3 +131,11 @@ CHECKS["C12"] = dict(
     thorough=dict(shards=16, checks=700, timeout=3400),
     assumptions=_GOSSIP_ASSUME + ["the adversary forwards the intact item (re-sealing is out of scope) and manipulates lists, drops, duplicates and reorders"],
 )
+
+CHECKS["C18"] = dict(
+    test="TestC18", level="exploration", race=True,
+    common=dict(shrinktime="0s", env={"GOMEMLIMIT": "4GiB"}),
+    quick=dict(shards=8, checks=4, timeout=1200, env={"VERIF_C18_CASES": 4, "GOMEMLIMIT": "4GiB"}),
+    thorough=dict(shards=16, checks=40, timeout=3400, env={"VERIF_C18_CASES": 40, "GOMEMLIMIT": "4GiB"}),
+    assumptions=["the Go race detector sees only races that execute in the sampled interleavings", "reports are attributed by function names of the innermost repository frames of the two accesses; reports without a repository frame are ignored"],
+)
